@@ -7,7 +7,7 @@ from typing import Any, Dict, List, Optional
 
 from hypothesis import strategies as st
 
-from .. import cases, cexec, gen, pyexec, ref, render_bp, rewrites, strategies as S
+from .. import cases, cexec, gen, goexec, pyexec, ref, render_bp, rewrites, strategies as S
 from ..model import Message, Unit, unit_messages
 from ..runner import HypPart, Stats, Violation
 
@@ -22,8 +22,10 @@ RULE = (
     "replace a capacity literal by a constant expression of equal value; renumber fields by a strictly increasing map into "
     "1..255; optionally re-render with different indentation, comments, blank lines, semicolons (none/all/mixed), hex "
     "literals, no trailing newline. Metamorphic oracle: Python encode() of the mapped value under the rewritten schema == "
-    "bytes under the original schema (and == reference); on a 1-in-5 sample also the C encoder of the rewritten schema in a drawn build (standard, -O little/both/big, -O both with -DBP_BIG_ENDIAN). evaluations = (message, value) "
-    "pairs compared. Non-trivial: >= 2 different rewrite kinds applied and the message has >= 3 leaves; distinct by (original "
+    "bytes under the original schema (and == reference); on every other case also the C encoder of the rewritten schema in a drawn build (standard, -O little/both/big, -O both with -DBP_BIG_ENDIAN), on every third case the generated Go encoder of the rewritten schema (interpreted). Part alias_c: only alias introductions / inlinings (a field's type, an "
+    "array's element type, the element type inside an alias definition), units traditional half of the time, the C encoder of the "
+    "rewritten schema on EVERY case in a drawn build (standard little-/big-endian runtime, -O little/both/big, -O both as big-endian). "
+    "evaluations = (message, value) pairs compared. Non-trivial: >= 2 different rewrite kinds applied and the message has >= 3 leaves; distinct by (original "
     "digest, rewritten digest, message, value)."
 )
 ASSUMPTIONS = [
@@ -31,7 +33,7 @@ ASSUMPTIONS = [
     "recorded C10 finding (type nested in an imported file's message) is skipped and counted",
     "ref.py is the specification",
 ]
-REQUIRED_LABELS = ["rw:rename:all", "rw:rename_collide", "rw:permute_fields", "rw:swap_defs", "rw:intro_alias", "rw:inline_alias", "rw:hoist_nested", "rw:nest_toplevel", "rw:move_to_import", "rw:cap_const_expr", "rw:renumber", "rw:style"]
+REQUIRED_LABELS = ["rw:rename:all", "rw:rename_collide", "rw:permute_fields", "rw:swap_defs", "rw:intro_alias", "rw:inline_alias", "rw:hoist_nested", "rw:nest_toplevel", "rw:move_to_import", "rw:cap_const_expr", "rw:renumber", "rw:style", "c_sample", "go_sample"]
 
 
 @dataclass
@@ -46,6 +48,7 @@ class Case:
     excluded: Dict[str, int] = field(default_factory=dict)
     with_c: bool = False
     c_build: str = "std"
+    with_go: bool = False
 
 
 @st.composite
@@ -58,7 +61,25 @@ def strategy_(draw: Any) -> Case:
             continue
         rand[i] = [draw(S.values(m)) for _ in range(2)]
     unit2, msgs2, applied, style, excluded = rewrites.apply_sequence(draw, unit, msgs)
-    return Case(unit, msgs, unit2, msgs2, applied, style, rand, excluded, draw(st.integers(0, 4)) == 0, draw(st.sampled_from(["std", "std", "O-both", "O-both-BE", "O-big", "O-little"])))
+    return Case(unit, msgs, unit2, msgs2, applied, style, rand, excluded, draw(st.integers(0, 1)) == 0, draw(st.sampled_from(["std", "std", "O-both", "O-both-BE", "O-big", "O-little"])), draw(st.integers(0, 2)) == 0)
+
+
+@st.composite
+def alias_strategy_(draw: Any) -> Case:
+    """Only alias introductions / inlinings (field types, array element types, element types inside alias definitions), on
+    units that are traditional half of the time, so that every C build of the optimization mode is reachable; C on every case."""
+    trad = draw(st.booleans())
+    unit = draw(S.units(S.Features(max_defs=5, extensible=not trad, ext_arrays=not trad)))
+    msgs = unit_messages(unit)
+    rand: Dict[int, List[Any]] = {}
+    for i, m in enumerate(msgs):
+        if ref.has_empty_enum(m):
+            continue
+        rand[i] = [draw(S.values(m)) for _ in range(2)]
+    unit2, msgs2, applied, style, excluded = rewrites.apply_sequence(draw, unit, msgs, max_steps=4, only=[rewrites.rw_intro_alias, rewrites.rw_inline_alias])
+    applied = [a for a in applied if a != "style"]
+    build = draw(st.sampled_from(["std", "std-BE", "O-both", "O-both-BE", "O-big", "O-little"]))
+    return Case(unit, msgs, unit2, msgs2, applied, None, rand, excluded, True, build, draw(st.integers(0, 3)) == 0)
 
 
 def describe(c: Case) -> Any:
@@ -122,6 +143,8 @@ def run_case(c: Case, stats: Stats) -> None:
                     stats.mark_nontrivial(d1, d2, m1.name, v1)
         if c.with_c:
             _c_sample(c, cu2, stats)
+        if c.with_go:
+            _go_sample(c, cu2, stats)
         stats.sample({"rewrites": c.applied, "original": cu1.texts if len(str(cu1.texts)) < 1500 else "(large)", "rewritten": cu2.texts if len(str(cu2.texts)) < 1500 else "(large)"})
 
 
@@ -134,15 +157,20 @@ def _c_sample(c: Case, cu2: gen.Compiled, stats: Stats) -> None:
     from ..evolve import ext_arrays
 
     build = c.c_build
-    if build != "std" and (any(m.ext for m in unit_messages(c.unit2)) or ext_arrays(c.unit2)):
+    if build not in ("std", "std-BE") and (any(m.ext for m in unit_messages(c.unit2)) or ext_arrays(c.unit2)):
         build = "std"  # optimization mode needs a traditional schema
+    if build == "std-BE":
+        # what can be simulated on x86 (see C06 part std_be): no extensible types (native 16-bit prefix), signed widths 8/16/32/64 only
+        nonstd = any(lf.kind == "int" and lf.bits not in (8, 16, 32, 64) for m in msgs2 for lf in ref.leaves(m))
+        if nonstd or any(m.ext for m in unit_messages(c.unit2)) or ext_arrays(c.unit2):
+            build = "std"
     stats.count("c_build:" + build)
     try:
-        if build == "std":
+        if build in ("std", "std-BE"):
             cdir = cu2.render_all("c")
         else:
             cdir = cu2.render_all("c", tag="c_" + build, optimize=True, endian={"O-both": "both", "O-both-BE": "both", "O-big": "big", "O-little": "little"}[build])
-        drv = cexec.CDriver(c.unit2, cdir, msgs2, cexec.CConfig("gcc", "-O1", big_endian=(build == "O-both-BE")), with_json=False, workdir=cu2.outdir("drv"))
+        drv = cexec.CDriver(c.unit2, cdir, msgs2, cexec.CConfig("gcc", "-O1", big_endian=(build in ("O-both-BE", "std-BE"))), with_json=False, workdir=cu2.outdir("drv"), be_storage=(build == "std-BE"))
     except cexec.CBuildError as e:
         raise Violation(f"rewritten schema's C does not build (rewrites {c.applied}): {e}", signature="cbuild")
     ops, meta = [], []
@@ -165,4 +193,42 @@ def _c_sample(c: Case, cu2: gen.Compiled, stats: Stats) -> None:
             raise Violation(f"C encoder of the rewritten schema ({c.applied}) gives {r.data.hex()}, original/reference {want.hex()} for {m1.name}", {"value": v1}, signature="c-bytes-changed")
 
 
-PARTS = [HypPart("rewrite", lambda tier: strategy_(), run_case, {"quick": 800, "thorough": 16000}, describe=describe)]
+def _go_sample(c: Case, cu2: gen.Compiled, stats: Stats) -> None:
+    """Generated Go encoder of the rewritten schema (interpreted) against the reference bytes of the original."""
+    idx = [i for i in c.rand]
+    if not idx:
+        return
+    try:
+        gou = goexec.GoUnit(c.unit2, cu2.render_all("go"))
+    except goexec.GoUnsupported as e:
+        stats.inconclusive_(f"go interpreter: {str(e)[:80]}")
+        return
+    except (goexec.GoCompileError, goexec.GoSyntaxError) as e:
+        # whether generated Go is accepted by the toolchain is C10's subject (recorded findings D10 / N8 live there)
+        why = "unused import (recorded C10 finding D10)" if "not used" in str(e) else "other: " + str(e)[:160]
+        stats.inconclusive_("generated Go of the rewritten schema rejected by the Go checker (C10's subject): " + why)
+        return
+    stats.count("go_unit")
+    for i in idx:
+        m1, m2 = c.msgs[i], c.msgs2[i]
+        for v1 in [v for _, v in S.basis_values(m1, 0)] + list(c.rand[i]):
+            leafvals = [ref.get_path(v1, lf.path) for lf in ref.leaves(m1)]
+            v2 = S.build_value(m2, leafvals)
+            want = ref.encode(m1, v1)
+            try:
+                got = gou.encode(m2, v2)
+            except goexec.GoUnsupported as e:
+                stats.inconclusive_(f"go interpreter: {str(e)[:80]}")
+                return
+            except goexec.GoPanic as e:
+                raise Violation(f"Go encoder of the rewritten schema ({c.applied}) panics for {m1.name}: {e}", {"value": v1}, signature="go-panic")
+            stats.evaluations += 1
+            stats.count("go_sample")
+            if got != want:
+                raise Violation(f"Go encoder of the rewritten schema ({c.applied}) gives {got.hex()}, original/reference {want.hex()} for {m1.name}", {"value": v1}, signature="go-bytes-changed")
+
+
+PARTS = [
+    HypPart("rewrite", lambda tier: strategy_(), run_case, {"quick": 800, "thorough": 16000}, describe=describe),
+    HypPart("alias_c", lambda tier: alias_strategy_(), run_case, {"quick": 480, "thorough": 9600}, describe=describe),
+]
